@@ -409,6 +409,36 @@ def check_probe(case):
     return {"nontrivial": True, "sample": f"{case['kind']} x {d}"}
 
 
+# near-valid programs: every token of a small generated program replaced by each similar token (visibility, brackets,
+# keywords) or deleted; the result is loaded and evaluated
+def near_valid_case():
+    from .c15 import sweep_case
+    return sweep_case()
+
+
+def check_near_valid(case):
+    from ..ref import lexer as RL
+    from .c15 import SIMILAR
+    text, _ = P.print_tree(case["tree"], chooser(case["choices"]), "minimal", "normal")
+    data = text.encode("utf-8")
+    ref = RL.ref_lex(data)
+    toks = [(k, s, e) for k, _, s, e in ref[1] if k not in ("ws", "comment", "eof")]
+    prelude = b"local a = 1, b = 'b', c = [1, 2, 3], x = {a: 1}, y = null, f = function(p, q=2) p, g = std.length, obj = {a: {b: 2}}, arr = [[1]], _ = true, e5 = 5, nulls = null, iff = false; "
+    n = 0
+    outs = {}
+    for i, (_, s, e) in enumerate(toks):
+        cur = data[s:e].decode("utf-8", "replace")
+        variants = [data[:s] + data[e:]] + [data[:s] + b" " + alt.encode() + b" " + data[e:] for alt in SIMILAR.get(cur, [])]
+        for m in variants:
+            r = eval_bytes(prelude + m)
+            if "panic" in r:
+                raise util.panic_violation(r["panic"], f"source {(prelude + m)[:400]!r}")
+            o = judge(r, f"source {m[:200]!r}")
+            outs[o] = outs.get(o, 0) + 1
+            n += 1
+    return {"nontrivial": n >= 8, "labels": sorted(outs)[:3], "sample": text[:200]}
+
+
 # regression sources: inputs that once crashed (kept forever, run in-process and through the binary)
 REGRESSIONS = [
     'std.mapWithIndex(std.length, "0x1F")', 'std.flatMap(function(k, v) v, [error "lazy"])', 'std.map(function(a, b) b, [1])',
@@ -439,9 +469,10 @@ CHECKS = [
     Check("stdlib_matrix_product", check_stdlib, enumerate_fn=enum_stdlib, exhaustive=True),
     Check("bytes_and_mutated_corpus", check_bytes, bytes_case, quick=350, thorough=30000),
     Check("syntax_tree_programs", check_program, program_case, quick=200, thorough=12000),
+    Check("near_valid_programs", check_near_valid, near_valid_case, quick=25, thorough=1000),
     Check("bindings", check_bindings, binding_case, quick=80, thorough=4000),
     Check("deep_nesting_probe", check_probe, enumerate_fn=enum_probe, workers=1),
     Check("regression_sources", check_regression, enumerate_fn=enum_regressions),
-    _fuzz.replay_check(["pipeline", "parse_tree", "lex_tile"]),
+    _fuzz.replay_check(["pipeline"]),
 ]
 FUZZ = [("pipeline", 400_000, 1000), ("parse_tree", 500_000, 1000)]
